@@ -25,9 +25,11 @@ import RModel.Props.C02ren
    * `apply_places_everything` an accepted plan for a well-formed tree and ANY list of search roots whose
                                destinations are free on disk satisfies all five guards of `C02ren.renamePhase_ok`:
                                STEP 3 succeeds, every node ends at `finalPath rs q`, nothing else moves.
-  `C08_full` is false today (`C08_full_false`); the four `C08_witness_*` theorems are the kernel-evaluated
+  `C08_full` is false today (`C08_full_false`); the two `C08_witness_*` theorems are the kernel-evaluated
   counterexamples, each replayed on the real binary by `checks/c08.py` (corpus/C08);
-  `overlapping_roots_before_and_after_fix` records the defect repaired by 4d2e5a7 on the loop without `dedup_renames`.
+  `overlapping_roots_before_and_after_fix`, `symlink_to_root_before_and_after_fix` record the defects repaired by
+  4d2e5a7 / ed3f0d7 on the old-style functions; `flags_respected`, `root_filter_exact` are the positive statements
+  after 4ad17ef / ed3f0d7.
   File-name coercion (`applyCoercion`) enters the general theorems through the contract `CoerceSafe`
   (its result is a usable file name), which is checked differentially; concrete instances are evaluated.
 -/
@@ -59,9 +61,9 @@ instance (v : Bytes) : Decidable (GoodVal v) := by unfold GoodVal; infer_instanc
 instance (vmap : List VEntry) : Decidable (GoodVals vmap) := by unfold GoodVals; infer_instance
 instance (es : List Entry) : Decidable (SlashFree es) := by unfold SlashFree; infer_instance
 
-/-- the entry is of a kind the flags allow (note: a symlink is allowed by both flags) -/
+/-- the entry is of a kind the flags allow (since 4ad17ef a symlink counts as a file) -/
 def KindEnabled (o : Opts) (e : Entry) : Prop :=
-  ¬ (e.2 = .dir ∧ o.renameDirs = false) ∧ ¬ (e.2 = .file ∧ o.renameFiles = false)
+  ¬ (e.2 = .dir ∧ o.renameDirs = false) ∧ ¬ (e.2 ≠ .dir ∧ o.renameFiles = false)
 
 -- 1. which names are renamed ------------------------------------------------------------------------------------
 
@@ -527,21 +529,84 @@ theorem C08_witness_two_styles_in_one_name :
     newNameFor T0 o0 vm0 b!"foo_bar-FooBar.txt" = some b!"foo_bar-BazQux.txt" ∧
     newNameFor T0 o0 vm0 b!"foo_bar_FOO_BAR.txt" = some b!"baz_qux_baz_qux.txt" := by decide +kernel
 
-/-- WITNESS (finding `no_rename_files_renames_symlinks`): with `rename_files = false` a regular file is skipped,
-    a symlink of the same name is still planned (as kind `file`). -/
-theorem C08_witness_no_rename_files_renames_symlinks :
+/-- FLAGS (since 4ad17ef; finding `no_rename_files_renames_symlinks` repaired): with `rename_files = false`
+    only directories are planned — regular files and symlinks alike are left alone — and with
+    `rename_dirs = false` no directory is planned. -/
+theorem flags_respected (T : Tables) (o : Opts) (vmap : List VEntry) (es : List Entry) :
+    (o.renameFiles = false → ∀ e : Entry, e.2 ≠ .dir → planEntry T o vmap e = none) ∧
+    (o.renameFiles = false → ∀ r ∈ collect T o vmap es, r.kind = .dir) ∧
+    (o.renameDirs = false → ∀ r ∈ collect T o vmap es, r.kind = .file) := by
+  refine ⟨?_, ?_, ?_⟩
+  · intro hf e hk
+    cases hp : planEntry T o vmap e with
+    | none => rfl
+    | some r' => exact absurd ⟨hk, hf⟩ (planEntry_some hp).2.2.2.1
+  · intro hf r hr
+    obtain ⟨e, _, hp⟩ := mem_collect.1 hr
+    obtain ⟨_, hkind, _, h2, _⟩ := planEntry_some hp
+    have : e.2 = .dir := Classical.byContradiction (fun hne => h2 ⟨hne, hf⟩)
+    rw [hkind, this]; rfl
+  · intro hd r hr
+    obtain ⟨e, _, hp⟩ := mem_collect.1 hr
+    obtain ⟨_, hkind, h1, _, _⟩ := planEntry_some hp
+    rw [hkind]
+    cases hk : e.2 with
+    | dir => exact absurd ⟨hk, hd⟩ h1
+    | file => rfl
+    | symlink => rfl
+
+/-- after 4ad17ef, evaluated: neither a regular file nor a symlink named with the term is planned under
+    `rename_files = false`; a directory still is; without the flag the symlink is planned as kind `file` -/
+theorem no_rename_files_after_fix :
     planEntry T0 { o0 with renameFiles := false } vm0 ([b!"proj", b!"foo_bar_link"], .file) = none ∧
-    planEntry T0 { o0 with renameFiles := false } vm0 ([b!"proj", b!"foo_bar_link"], .symlink) =
+    planEntry T0 { o0 with renameFiles := false } vm0 ([b!"proj", b!"foo_bar_link"], .symlink) = none ∧
+    planEntry T0 { o0 with renameFiles := false } vm0 ([b!"proj", b!"foo_bar_link"], .dir) =
+      some ⟨[b!"proj", b!"foo_bar_link"], [b!"proj", b!"baz_qux_link"], .dir⟩ ∧
+    planEntry T0 o0 vm0 ([b!"proj", b!"foo_bar_link"], .symlink) =
       some ⟨[b!"proj", b!"foo_bar_link"], [b!"proj", b!"baz_qux_link"], .file⟩ := by decide +kernel
 
-/-- WITNESS (finding `symlink_to_root_treated_as_root`): a link below the root that points at the root is
-    canonicalised to the root and dropped with it. -/
-theorem C08_witness_symlink_to_root_treated_as_root :
-    planRenames T0 o0 vm0
-      [([b!"proj"], .dir 493), ([b!"proj", b!"sub"], .dir 493),
-       ([b!"proj", b!"sub", b!"foo_bar_self"], .link b!"."),
-       ([b!"proj", b!"sub", b!"foo_bar.txt"], .file b!"x" 420)] [[b!"proj", b!"sub"]] =
-    .ok [⟨[b!"proj", b!"sub", b!"foo_bar.txt"], [b!"proj", b!"sub", b!"baz_qux.txt"], .file⟩] := by decide +kernel
+/-- ROOT FILTER (since ed3f0d7; finding `symlink_to_root_treated_as_root` repaired): without `--rename-root`
+    exactly the renames whose source *is* a search root are dropped — nothing else, whatever a symlink points at;
+    with `--rename-root` nothing is dropped. -/
+theorem root_filter_exact (roots : List Path) (rs : List Ren) (r : Ren) :
+    (r ∈ filterRoots roots false rs ↔ r ∈ rs ∧ r.path ∉ roots) ∧
+    (r ∈ filterRoots roots true rs ↔ r ∈ rs) := by
+  constructor
+  · simp only [filterRoots, filterRootsBy, Bool.false_eq_true, if_false, List.mem_filter]
+    constructor
+    · rintro ⟨h1, h2⟩
+      refine ⟨h1, fun hm => ?_⟩
+      have : (roots.any fun root => r.path == root) = true := List.any_eq_true.2 ⟨r.path, hm, by simp⟩
+      simp [this] at h2
+    · rintro ⟨h1, h2⟩
+      refine ⟨h1, ?_⟩
+      cases ha : (roots.any fun root => r.path == root) with
+      | false => rfl
+      | true =>
+        obtain ⟨root, hroot, heq⟩ := List.any_eq_true.1 ha
+        have : r.path = root := by simpa using heq
+        exact absurd (this ▸ hroot) h2
+  · simp only [filterRoots, filterRootsBy, if_true, List.mem_append, List.mem_filter]
+    constructor
+    · rintro (h | h) <;> exact h.1
+    · intro h
+      cases ha : (roots.any fun root => r.path == root) with
+      | true => exact Or.inl ⟨h, rfl⟩
+      | false => exact Or.inr ⟨h, rfl⟩
+
+/-- BEFORE / AFTER ed3f0d7: with the source located by `Path::canonicalize` (which follows the link) the link
+    `proj/sub/foo_bar_self -> .` is taken for the root `proj/sub` and dropped; located by parent + own name it is
+    renamed like its sibling. -/
+theorem symlink_to_root_before_and_after_fix :
+    let t : Tree := [([b!"proj"], .dir 493), ([b!"proj", b!"sub"], .dir 493),
+                     ([b!"proj", b!"sub", b!"foo_bar_self"], .link b!"."),
+                     ([b!"proj", b!"sub", b!"foo_bar.txt"], .file b!"x" 420)]
+    let f : Ren := ⟨[b!"proj", b!"sub", b!"foo_bar.txt"], [b!"proj", b!"sub", b!"baz_qux.txt"], .file⟩
+    let l : Ren := ⟨[b!"proj", b!"sub", b!"foo_bar_self"], [b!"proj", b!"sub", b!"baz_qux_self"], .file⟩
+    planMulti T0 o0 vm0 [entriesOf t [b!"proj", b!"sub"]] = .ok [f, l] ∧
+    filterRootsBy (canon t 8) [[b!"proj", b!"sub"]] false [f, l] = [f] ∧
+    planRenames T0 o0 vm0 t [[b!"proj", b!"sub"]] = .ok [f, l] ∧
+    (applyPlan t ⟨[], [f, l]⟩).outcome = .ok := by decide +kernel
 
 /-- the full-strength statement is false today: clause (d), by the coercion witness (`my_fooBar.txt`) -/
 theorem C08_full_false : ¬ C08_full := by
